@@ -16,7 +16,10 @@ CHECKS = {
                 'with the two known findings excused by name, and in the intended design). tlc -simulate behaviours are replayed as '
                 'environment schedules into the REAL LocalFdExecutor + HttpProtocolHandler + HttpProxyPlugin on in-memory sockets, '
                 'with tick-level state comparison, and the recorded syscall traces (recv/queue/send/close with content-addressed '
-                'payloads) are judged by TLC against Conn.tla via TraceConn.tla; a rejected trace names the clause it breaks.',
+                'payloads) are judged by TLC against Conn.tla via TraceConn.tla; a rejected trace names the clause it breaks. HTTP '
+                'exchanges cover Content-Length, chunked (extensions, trailers), close-delimited, interim 1xx and several responses '
+                'back to back; the tunnel schedules also run through the second relay implementation (BaseTcpTunnelHandler, '
+                'examples/https_connect_tunnel.py) and in threaded mode.',
         'design_ref': 'DESIGN.md section 6, C01',
         'note': 'Trusted: TLC, SimNet socket semantics (harness/simnet.py) standing in for the kernel, the reduction argument that '
                 'peers act between loop iterations. TLS-wrapped relays are not exercised.',
@@ -237,10 +240,13 @@ CHECKS = {
                 'NothingLost, DispatcherAlive and the action property BreakIsolated. tlc -simulate behaviours are executed step by step on '
                 'the REAL EventQueue + EventDispatcher with real multiprocessing pipes (break = reader closes its end); TLC (TraceBus) '
                 'requires the state observed after every step (dispatcher table, deliveries per channel, dispatcher alive) to be the '
-                'model\'s successor state, and re-evaluates the design invariants on every trace state.',
+                'model\'s successor state, and re-evaluates the design invariants on every trace state. Live part: the same histories '
+                '(subscribe / unsubscribe / publish) drive a real EventManager (dispatcher thread, multiprocessing.Queue) and real '
+                'EventSubscriber objects (relay threads, callbacks); TLC (TraceBusLive) replays the recorded operations through the '
+                'actions of EventBus.tla and requires, per subscription, the callback arguments to be exactly the events the model delivers.',
         'design_ref': 'DESIGN.md section 6, C18',
-        'note': 'Trusted: TLC, the kernel pipe semantics (BrokenPipeError on a closed reader). The dispatcher is driven through '
-                'handle_event; EventManager / EventSubscriber threads are not exercised.',
+        'note': 'Trusted: TLC, the kernel pipe semantics (BrokenPipeError on a closed reader). In the step-wise part the dispatcher is '
+                'driven through handle_event; in the live part one thread issues all operations (queue order = issue order).',
         'technique': 'TLA+ design model (EventBus) exhaustively checked + TLC-generated histories executed on the real dispatcher with '
                      'step-wise TLC trace validation (TraceBus)',
     },
